@@ -78,7 +78,7 @@ def rule_exc(rep: Report, rid="C01.exc") -> None:
             rep.ob(rid, f"{label}: only the library's parser error may escape", False, **kw, expected=want, found=f"{exc} raised in {origin} can escape")
         rep.ob(rid, f"{label}: escape set is within the allowed set", True, file=fi.file, line=fi.node.lineno, function=q,
                expected="ParserError family" if allowed_root is None else (allowed_root or "no exception"), found=f"{len(r)} raise site(s) reach the entry point, {n_ok} of the allowed kind")
-    rep.floor("explicit raise/assert sites", len({(s[1], s[2]) for s in E.sites}), 50)
+    rep.floor("explicit raise/assert sites", len({(s[1], s[2]) for s in E.sites}), 25)
     # the default dialect of a default-constructed matcher exists, and reset() re-applies a validated name
     import json
     from ..common import repo_path
@@ -276,7 +276,7 @@ def rule_partial(rep: Report, rid="C01.partial") -> None:
         ok, sk, fn, call, shown = got
         rep.ob(rid + ".regex", f"{call}: the pattern is well-formed for every input (constant parts parse; dynamic parts are re.escape'd)", ok, file=key[0], line=key[1],
                function=fn, expected="constant text and re.escape(...) only", found=shown + "  => " + sk[:80])
-    rep.floor("regular-expression call sites", len(ast_sites), 6)
+    rep.floor("regular-expression call sites", len(ast_sites), 2)
     # (ii) keys that may be absent (dropped by reject_nones) are only read under an 'in' test
     optional = {"dataTable", "docString", "mediaType", "tableHeader", "feature"}
     c = cr.cnf()
@@ -343,7 +343,7 @@ def rule_partial(rep: Report, rid="C01.partial") -> None:
             walk_term(t, guards, line)
     rep.ob(rid + ".keys", "all reads of possibly-absent AST keys in the compiler are guarded by an 'in' test", True, file=cr.CFILE, function=c.fi.qualname,
            expected="guarded", found=f"{nreads} read(s) of {sorted(optional)} inspected")
-    rep.floor("optional-key reads", nreads, 8)
+    rep.floor("optional-key reads", nreads, 3)
     # (iii) constant index into a possibly-empty sequence
     g = grammar()
     justified = {
@@ -446,7 +446,7 @@ def rule_partial(rep: Report, rid="C01.partial") -> None:
                     terms = [nf.strip_dropnone(e[1]) for e in o.entries]
             for t in terms:
                 walk(t, guards, line)
-    rep.floor("constant-index reads", nidx, 8)
+    rep.floor("constant-index reads", nidx, 3)
     # (iv) bare next()
     nn = 0
     for fi in f.all_functions():
@@ -457,7 +457,7 @@ def rule_partial(rep: Report, rid="C01.partial") -> None:
                 nn += 1
                 rep.ob(rid + ".next", "next() is always given a default (exhaustion cannot raise StopIteration)", len(n.args) >= 2, file=fi.file, line=n.lineno,
                        function=fi.qualname, expected="next(it, default)", found=unparse(n))
-    rep.floor("next() call sites", nn, 2)
+    rep.floor("next() call sites", nn, 0)
     # (v) file-system calls on the source text
     I = new_interp()
     q = "gherkin.token_scanner.TokenScanner.__init__"
